@@ -29,7 +29,8 @@ for kind, want in (('mutants', 1), ('neutral', 0)):
         if sh(['git', '-C', '/repo', 'apply', path]).returncode != 0:
             print('%-40s patch does not apply' % name); bad += 1; continue
         try:
-            tests = 'skipped'
+            # with --no-tests the result of the earlier run against the same patch is kept
+            tests = results.get(name, {}).get('tests', 'skipped') if skip_tests else 'skipped'
             if not skip_tests:
                 # the repository's own baseline: one process per test (nextest), as in /root/.vp/BASELINE.json
                 try:
